@@ -1185,6 +1185,9 @@ class HeapInterp:
                 o.elem = b.elem
                 o.t = b.t           # which rows are selected is structure, not value provenance
                 o.val = "lines" if b.val == "lines" else None
+                if b.val is None and b.elem is not None and b.elem.kind in ("str", "scalar") and not any(x.startswith("@idx") for x in b.t):
+                    # a run of tokens of one line: its elements are those tokens
+                    o.elem = with_t(b.elem, {f"@toks[{norm(e.slice)}]"})
                 return o
             if b.kind == "tuple":
                 o = Obj("list")
